@@ -182,7 +182,13 @@ def eval : Nat → Expr → Nat → St → R Val
     | .call f args =>
       match eval fuel f env s with
       | .ok fv s =>
-        if !isFunction fv then (if args.isEmpty then .ok fv s else .err s)
+        if (match fv with | .arr _ => true | _ => false) then
+          -- an array in head position is a slice-type constructor, not part of the core
+          -- language: its operands are evaluated, then the call fails
+          (match evalList fuel args env s with
+           | .ok _ s => .err s
+           | .err s => .err s | .brk l s => .brk l s | .cont l s => .cont l s | .timeout => .timeout)
+        else if !isFunction fv then (if args.isEmpty then .ok fv s else .err s)
         else
           let lazyAt : Nat → Bool := match fv with
             | .fn id => (match s.clos[id]? with
@@ -193,6 +199,7 @@ def eval : Nat → Expr → Nat → St → R Val
            | .ok vs s => applyFn fuel fv vs s
            | .err s => .err s | .brk l s => .brk l s | .cont l s => .cont l s | .timeout => .timeout)
       | r => r
+    | .assign _ _ => .err s
     | .bad _ => .err s
 
 /-- Left to right, each exactly once. -/
@@ -424,36 +431,49 @@ def runProgram (fuel : Nat) (es : List Expr) (s : St) : Outcome × St :=
 
 /-! ## The property's domain: statically well-formed programs -/
 
+/-- Static context of `wf`: labels of the enclosing loops of the current function body
+(innermost first), and whether we are inside an operand of a call (or of an array literal
+in operand position). `strict`: `break`/`continue` are not accepted inside call operands
+(the implementation compiles operands at run time, without the loop context: known finding
+C02-K1; the strict domain is what the random generators draw from). -/
+structure WfCtx where
+  loops : List (Option String) := []
+  inArg : Bool := false
+  strict : Bool := true
+
 mutual
 /-- No rejected form; every `break`/`continue` has a matching enclosing loop in the same
-function body. `loops` = labels of the enclosing loops, innermost first. -/
-def wf : List (Option String) → Expr → Bool
+function body. -/
+def wf : WfCtx → Expr → Bool
   | _, .int _ | _, .bool _ | _, .str _ | _, .nilLit | _, .sym _ => true
-  | ls, .arr es => wfList ls es
-  | ls, .call f args => wf ls f && wfList ls args
-  | ls, .begin_ es => wfList ls es
-  | ls, .def_ _ e => wf ls e
-  | ls, .set_ _ e => wf ls e
-  | ls, .cond arms d => wfArms ls arms && wf ls d
-  | ls, .and_ es => wfList ls es
-  | ls, .or_ es => wfList ls es
-  | ls, .let_ _ bs body => wfBinds ls bs && wfList ls body
-  | ls, .newScope es => wfList ls es
-  | ls, .for_ l i t s body => wf (l :: ls) i && wf (l :: ls) t && wf (l :: ls) s && wfList (l :: ls) body
-  | ls, .break_ l => match l with | none => !ls.isEmpty | some x => ls.contains (some x)
-  | ls, .continue_ l => match l with | none => !ls.isEmpty | some x => ls.contains (some x)
-  | _, .fn _ _ body => wfList [] body
-  | _, .defn _ _ _ body => wfList [] body
+  | c, .arr es => wfList c es
+  | c, .call f args => wf { c with inArg := true } f && wfList { c with inArg := true } args
+  | c, .begin_ es => wfList c es
+  | c, .def_ _ e => wf c e
+  | c, .set_ _ e => wf c e
+  | c, .cond arms d => wfArms c arms && wf c d
+  | c, .and_ es => wfList c es
+  | c, .or_ es => wfList c es
+  | c, .let_ _ bs body => wfBinds c bs && wfList c body
+  | c, .newScope es => wfList c es
+  | c, .for_ l i t s body =>
+    let c' := { c with loops := l :: c.loops }
+    wf c' i && wf c' t && wf c' s && wfList c' body
+  | c, .break_ l => !(c.strict && c.inArg) && (match l with | none => !c.loops.isEmpty | some x => c.loops.contains (some x))
+  | c, .continue_ l => !(c.strict && c.inArg) && (match l with | none => !c.loops.isEmpty | some x => c.loops.contains (some x))
+  | c, .fn _ _ body => wfList { c with loops := [], inArg := false } body
+  | c, .defn _ _ _ body => wfList { c with loops := [], inArg := false } body
+  | _, .assign _ _ => false
   | _, .bad _ => false
-def wfList : List (Option String) → List Expr → Bool
+def wfList : WfCtx → List Expr → Bool
   | _, [] => true
-  | ls, e :: es => wf ls e && wfList ls es
-def wfArms : List (Option String) → List (Expr × Expr) → Bool
+  | c, e :: es => wf c e && wfList c es
+def wfArms : WfCtx → List (Expr × Expr) → Bool
   | _, [] => true
-  | ls, (c, b) :: r => wf ls c && wf ls b && wfArms ls r
-def wfBinds : List (Option String) → List (String × Expr) → Bool
+  | c, (p, b) :: r => wf c p && wf c b && wfArms c r
+def wfBinds : WfCtx → List (String × Expr) → Bool
   | _, [] => true
-  | ls, (_, e) :: r => wf ls e && wfBinds ls r
+  | c, (_, e) :: r => wf c e && wfBinds c r
 end
 
 end ZygoVerif.Ref
